@@ -40,8 +40,14 @@ def main():
             m = importlib.import_module('vlib.props.' + mod)
             res = getattr(m, fn)(arg)
             _write(out, ('ok', res))
-        except BaseException:
-            _write(out, ('err', traceback.format_exc()))
+        except BaseException as e:
+            # did the exception pass through the staged library?  Then it is
+            # behaviour of zope.interface the oracle did not expect (reported
+            # as a violation after confirmation), not a bug of the checker.
+            stage = os.environ['VERIF_STAGE']
+            in_lib = any(fr.filename.startswith(stage)
+                         for fr in traceback.extract_tb(e.__traceback__))
+            _write(out, ('err', traceback.format_exc(), in_lib, type(e).__name__))
 
 
 if __name__ == '__main__':
